@@ -268,6 +268,7 @@ func (r *rewriter) selectStmt(s *ast.SelectStmt) ast.Stmt {
 func main() {
 	root := flag.String("root", "", "scratch tree")
 	yields := flag.String("yield", "", "comma separated path/file.go:Func (or :Recv.Func) entries that get a scheduling point at entry")
+	allowEmpty := flag.Bool("allow-empty", false, "do not fail when no site was rewritten (files listed only in case they use sync)")
 	flag.Parse()
 	if *root == "" || flag.NArg() == 0 {
 		fail("usage: instrument -root <tree> [-yield f.go:Func,...] file.go ...")
@@ -416,7 +417,7 @@ func main() {
 		total += counts[k]
 	}
 	fmt.Println("instrument: " + strings.Join(parts, " "))
-	if total == 0 {
+	if total == 0 && !*allowEmpty {
 		fail("nothing was instrumented")
 	}
 }
